@@ -14,6 +14,8 @@ TT_C = "lib/texellib/transpositionTable.cpp"
 CONST = "lib/texellib/constants.hpp"
 SEARCH_H = "lib/texellib/search.hpp"
 SEARCH_C = "lib/texellib/search.cpp"
+ENGINE_C = "app/texel/enginecontrol.cpp"
+UTIL_H = "lib/texellib/util/util.hpp"
 
 # (name, module, file, old, new, expectation)   expectation: "break" | "pass"
 CASES = [
@@ -105,6 +107,21 @@ CASES = [
     ("notifyPV: two ifs instead of else-if, shift instead of /2", "Score", SEARCH_C,
      "    if (isWinScore(score)) {\n        isMate = true;\n        score = (MATE0 - score) / 2;\n    } else if (isLoseScore(score)) {\n        isMate = true;\n        score = -((MATE0 + score - 1) / 2);\n    }",
      "    const bool win = isWinScore(score), lose = isLoseScore(score);\n    isMate = win || lose;\n    if (win)\n        score = (MATE0 - score) / 2;\n    if (lose)\n        score = -((MATE0 - 1 + score) / 2);", "pass"),
+    # ---- Time (enginecontrol.cpp computeTimeLimit slices, util.hpp clamp) -------------------------------------------
+    ("computeTimeLimit: margin time * 8 / 10", "Time", ENGINE_C, "std::min(static_cast<int>(bufferTime), time * 9 / 10);", "std::min(static_cast<int>(bufferTime), time * 8 / 10);", "break"),
+    ("computeTimeLimit: moves = 99 when movesToGo == 0", "Time", ENGINE_C, "                moves = 999;", "                moves = 99;", "break"),
+    ("computeTimeLimit: inc * moves", "Time", ENGINE_C, "int timeLimit = (time + inc * (moves - 1) - margin) / moves;", "int timeLimit = (time + inc * moves - margin) / moves;", "break"),
+    ("computeTimeLimit: margin not subtracted", "Time", ENGINE_C, "int timeLimit = (time + inc * (moves - 1) - margin) / moves;", "int timeLimit = (time + inc * (moves - 1)) / moves;", "break"),
+    ("computeTimeLimit: colours swapped", "Time", ENGINE_C, "int time = white ? sPar.wTime : sPar.bTime;", "int time = white ? sPar.bTime : sPar.wTime;", "break"),
+    ("computeTimeLimit: clamp lower bound 0", "Time", ENGINE_C, "minTimeLimit = clamp(minTimeLimit, 1, time - margin);", "minTimeLimit = clamp(minTimeLimit, 0, time - margin);", "break"),
+    ("computeTimeLimit: max clamp ignores margin", "Time", ENGINE_C, "maxTimeLimit = clamp(maxTimeLimit, 1, time - margin);", "maxTimeLimit = clamp(maxTimeLimit, 1, time);", "break"),
+    ("computeTimeLimit: max limit not clamped", "Time", ENGINE_C, "            maxTimeLimit = clamp(maxTimeLimit, 1, time - margin);\n", "", "break"),
+    ("clamp: min/max swapped", "Time", UTIL_H, "    return std::min(std::max(val, min), max);", "    return std::max(std::min(val, min), max);", "break"),
+    ("computeTimeLimit: max (not min) with timeMaxRemainingMoves", "Time", ENGINE_C, "moves = std::min(moves, static_cast<int>(timeMaxRemainingMoves));", "moves = std::max(moves, static_cast<int>(timeMaxRemainingMoves));", "break"),
+    ("computeTimeLimit: ternary for 999, declarations reordered", "Time", ENGINE_C,
+     "            int moves = sPar.movesToGo;\n            if (moves == 0)\n                moves = 999;\n            moves = std::min(moves, static_cast<int>(timeMaxRemainingMoves)); // Assume at most N more moves until end of game\n            bool white = pos.isWhiteMove();\n            int time = white ? sPar.wTime : sPar.bTime;\n            int inc  = white ? sPar.wInc : sPar.bInc;",
+     "            bool white = pos.isWhiteMove();\n            int moves = (sPar.movesToGo == 0) ? 999 : sPar.movesToGo;\n            moves = std::min(static_cast<int>(timeMaxRemainingMoves), moves);\n            int inc  = white ? sPar.wInc : sPar.bInc;\n            int time = white ? sPar.wTime : sPar.bTime;", "pass"),
+    ("clamp: written with comparisons", "Time", UTIL_H, "    return std::min(std::max(val, min), max);", "    T lo = val < min ? min : val;\n    return max < lo ? max : lo;", "pass"),
 ]
 
 
